@@ -2,7 +2,12 @@ package checks
 
 import (
 	"fmt"
+	"os"
+	"path/filepath"
+	"strings"
 	"sync"
+
+	"verif/tool/tsmini"
 
 	"verif/tool/corpus"
 	"verif/tool/gosym"
@@ -31,7 +36,7 @@ func C08(c *Ctx) {
 		return
 	}
 	specs := gCorpus(c, 0)
-	g, err := c.Generate(y, specs, GoVariants, nil)
+	g, err := c.Generate(y, specs, append(append([]string{}, GoVariants...), "ts"), nil)
 	if err != nil {
 		c.Inconclusive("%v", err)
 		return
@@ -41,8 +46,8 @@ func C08(c *Ctx) {
 		N = 6
 	}
 	c.Harnesses = append(c.Harnesses, "generated <grammar>/cmp/cmp.go:VerifAgree")
-	c.Bound("all inputs of length <= %d over {every terminal, end of input, a non-token code} with symbolic int64 values; %d grammars; variants go, go -u, go -o, go -o -u", N, len(specs))
-	c.Outside = append(c.Outside, "TypeScript variant (no tsmini)", "inputs longer than N", "raw token codes: the comparison maps terminal indices through each variant's own constants, because automatic token numbers may differ between generation runs (C14)")
+	c.Bound("all inputs of length <= %d over {every terminal, end of input, a non-token code} with symbolic int64 values; %d grammars; variants go, go -u, go -o, go -o -u, typescript", N, len(specs))
+	c.Outside = append(c.Outside, "inputs longer than N", "raw token codes: the comparison maps terminal indices through each variant's own constants, because automatic token numbers may differ between generation runs (C14)")
 	var wg sync.WaitGroup
 	sem := make(chan struct{}, 4)
 	for _, s := range specs {
@@ -58,6 +63,154 @@ func C08(c *Ctx) {
 			c.MarkDistinct(s.Name)
 		}()
 	}
+	// TypeScript against the Go parser: both run on the same abstract input in one path
+	for _, s := range specs {
+		s := s
+		wg.Add(1)
+		sem <- struct{}{}
+		go func() {
+			defer wg.Done()
+			defer func() { <-sem }()
+			c.tsAgreeJob(g, s, N)
+			c.MarkDistinct(s.Name + "/ts")
+		}()
+	}
 	wg.Wait()
 	c.Programs = len(specs)
+}
+
+// tsAgreeJob: the emitted Go parser (go/ssa, gosym) and the emitted TypeScript parser (tsmini)
+// run on the same symbolic abstract input inside one path; outcomes must coincide.
+func (c *Ctx) tsAgreeJob(g *GenSet, s *corpus.Spec, N int) {
+	src, err := os.ReadFile(g.TSPath(s.Name))
+	if err != nil {
+		c.Inconclusive("%s: %v", s.Name, err)
+		return
+	}
+	prog, err := tsmini.Parse(string(src))
+	if err != nil {
+		c.Inconclusive("%s: emitted TypeScript is outside the tsmini subset: %v", s.Name, err)
+		return
+	}
+	fn := g.Eng.Func(g.PkgPath(s.Name, "go"), "VerifRunIdx")
+	if fn == nil {
+		c.Inconclusive("%s: VerifRunIdx not found", s.Name)
+		return
+	}
+	T := len(s.Toks)
+	name := fmt.Sprintf("%s go-vs-ts N=%d", s.Name, N)
+	cfg := g.Eng.Cfg
+	vlog("start %s", name)
+	rep := g.Eng.ExploreFunc(name, func(st *gosym.State) {
+		idx := make([]*gosym.Term, N)
+		val := make([]*gosym.Term, N)
+		gi, gv := make(gosym.Slice, N), make(gosym.Slice, N)
+		for i := range idx {
+			idx[i] = st.Fresh("k", 64)
+			st.Assume(gosym.And(gosym.Cmp(gosym.OpSLe, gosym.ConstInt(64, -2), idx[i]), gosym.Cmp(gosym.OpSLt, idx[i], gosym.ConstInt(64, int64(T)))))
+			val[i] = st.Fresh("v", 64)
+			gi[i], gv[i] = idx[i], val[i]
+		}
+		res, pi := st.CallFunc(fn, []gosym.Value{gi, gv})
+		if pi != nil {
+			st.Assert(gosym.False, "C08: the Go parser harness panicked: "+pi.Msg)
+			return
+		}
+		out := res.(gosym.Struct)
+		gKind := int(out[0].(*gosym.Term).Int())
+		gVal := out[2].(*gosym.Term)
+		var gLog []int
+		for _, e := range out[3].(gosym.Slice) {
+			gLog = append(gLog, int(e.(*gosym.Term).Int()))
+		}
+		gReq := int(out[4].(*gosym.Term).Int())
+		ts, _ := tsRun(st, prog, s, idx, val, true)
+		if gKind == 0 {
+			st.Cover("accept")
+		} else {
+			st.Cover("reject")
+		}
+		B := gosym.BoolT
+		st.Assert(B((gKind == 0) == (ts.Kind == 0)), "variants disagree on the verdict (go vs typescript)")
+		if gKind == 1 {
+			st.Assert(B(ts.Kind == 1), "typescript does not report the syntax error the Go parser reports ("+ts.Msg+")")
+		}
+		st.Assert(B(gReq == ts.Requests), "variants request a different number of tokens (go vs typescript)")
+		same := len(gLog) == len(ts.Log)
+		for i := 0; same && i < len(gLog); i++ {
+			same = gLog[i] == ts.Log[i]
+		}
+		st.Assert(B(same), "variants perform different reductions (go vs typescript)")
+		if gKind == 0 && ts.Kind == 0 {
+			st.Assert(B(ts.ValKnown), "typescript value is not a number")
+			if ts.ValKnown {
+				st.Assert(gosym.Cmp(gosym.OpEq, gVal, ts.Val), "variants compute different values (go vs typescript)")
+			}
+		}
+	}, &cfg)
+	c.absorb(name, rep)
+	seen := map[string]bool{}
+	for _, v := range rep.Violations {
+		key := fmt.Sprintf("C08:%s:go-vs-ts:%s", s.Name, modelKey(v, "k"))
+		if seen[key] || len(seen) >= 2 {
+			continue
+		}
+		seen[key] = true
+		c.confirmGoVsTS(g, prog, s, v, N, key)
+	}
+}
+
+// confirmGoVsTS replays one model natively on both sides: go test on the generated package, node on the stripped TS.
+func (c *Ctx) confirmGoVsTS(g *GenSet, prog *tsmini.Program, s *corpus.Spec, v gosym.Violation, N int, key string) {
+	var idx, vals []int64
+	for i := 0; i < N; i++ {
+		idx = append(idx, int64(v.Model[fmt.Sprintf("k!%d", i)]))
+		vals = append(vals, int64(v.Model[fmt.Sprintf("v!%d", i)]))
+	}
+	dir := c.Scratch()
+	ts, _, err := runNode(dir, prog, s, idx, vals, true)
+	if err != nil {
+		c.Inconclusive("%s: node replay failed: %v", key, err)
+		return
+	}
+	pkgDir := c.storeGenPkg(g, s.Name, "go")
+	rf := ReplayFile{Property: c.ID, Key: key, What: v.What, Entry: "VerifDumpIdx", Args: []int{N},
+		Spec: ReplaySpec{Kind: "gen", Gen: map[string]string{"dir": pkgDir}}, Model: modelInts(v), Inputs: v.Syms}
+	path := filepath.Join(VerifDir, "replays", c.ID, sanitize(key)+".json")
+	WriteJSON(path, rf)
+	NativeReplay(&rf, path)
+	goLine := ""
+	for _, l := range strings.Split(lastReplayOutput, "\n") {
+		if strings.HasPrefix(l, "VERIF-OUT ") {
+			goLine = strings.TrimPrefix(l, "VERIF-OUT ")
+		}
+	}
+	if goLine == "" {
+		c.Inconclusive("%s: native Go replay printed no outcome", key)
+		return
+	}
+	tsVal := "?"
+	if ts.ValKnown {
+		tsVal = fmt.Sprint(ts.Val.Int())
+	}
+	tsLine := fmt.Sprintf("%d|%s|%d|%v|", ts.Kind, tsVal, ts.Requests, ts.Log)
+	parts := strings.Split(goLine, "|")
+	tparts := strings.Split(tsLine, "|")
+	differ := parts[0] != tparts[0] && !(parts[0] != "0" && tparts[0] != "0" && parts[0] == "1" && tparts[0] == "1")
+	if parts[0] == "1" && tparts[0] != "1" {
+		differ = true
+	}
+	if len(parts) > 3 && (parts[2] != tparts[2] || strings.TrimSpace(parts[3]) != strings.TrimSpace(tparts[3])) {
+		differ = true
+	}
+	if parts[0] == "0" && tparts[0] == "0" && parts[1] != tparts[1] {
+		differ = true
+	}
+	rf.Native = "go: " + goLine + "  typescript(node): " + tsLine
+	WriteJSON(path, rf)
+	if differ {
+		c.Report(key, fmt.Sprintf("Go and TypeScript parsers of grammar %s disagree on abstract input %v: go %s, typescript %s", s.Name, idx, goLine, tsLine), path)
+	} else {
+		c.Inconclusive("%s: engines found a Go/TypeScript disagreement that the native runs do not show (go %s, ts %s)", key, goLine, tsLine)
+	}
 }
